@@ -171,6 +171,7 @@ class C16(World):
     chunk = 1
     run_timeout = 150.0
     quick = dict(runs=600, budget_s=65)
+    selftest_n = dict(quick=(12, 6), thorough=(120, 48))
     thorough = dict(runs=200000, budget_s=1500)
     components_real = [
         "OpenPinch.classes.pinch_problem.PinchProblem (load / target / export_to_Excel / from_json / run=True constructor)",
